@@ -159,8 +159,30 @@ def run_config(ck, sw, idx, name, over, focus, sample=None, sim=None, workers=4,
     if total == 0:
         raise vlib.Inconclusive("no histories generated for " + name)
     if sample and total > sample:
+        # stratified sample: every distinct suffix of three commands (with the frame that issued them)
+        # is represented before any stratum gets a second member
         rnd = random.Random(ck.seed * 7919 + idx)
-        keep = set(rnd.sample(range(total), sample))
+        strata = {}
+        with open(beh) as fi:
+            for n, line in enumerate(fi):
+                strata.setdefault(signature(json.loads(line)), []).append(n)
+        for v in strata.values():
+            rnd.shuffle(v)
+        keep, rounds = set(), 0
+        keys = sorted(strata)
+        while len(keep) < sample:
+            added = False
+            for k in keys:
+                if rounds < len(strata[k]):
+                    keep.add(strata[k][rounds])
+                    added = True
+                    if len(keep) >= sample:
+                        break
+            if not added:
+                break
+            rounds += 1
+        ck.cov.setdefault("strata", 0)
+        ck.cov["strata"] += len(strata)
         tmp = beh + ".all"
         os.rename(beh, tmp)
         with open(tmp) as fi, open(beh, "w") as fo:
@@ -171,6 +193,25 @@ def run_config(ck, sw, idx, name, over, focus, sample=None, sim=None, workers=4,
     ck.cov.setdefault("generated_histories", 0)
     ck.cov["generated_histories"] += total
     return replay_and_validate(ck, sw, "c%d" % idx, beh, focus, name, env=env)
+
+
+CMD_EVS = {"Call", "CancelB", "CloseB", "PostE", "TSchedB", "TCancelE", "TCloseE", "Env", "PollB"}
+
+
+def signature(h, k=3):
+    """The last k commands of a history, each with the kind of frame that issued it."""
+    stack, cmds = [], []
+    for e in h:
+        ev = e["ev"]
+        if ev in ("CbB", "TFireB", "PostRunB"):
+            stack.append(ev)
+        elif ev in ("CbE", "TFireE", "PostRunE"):
+            if stack:
+                stack.pop()
+        elif ev in CMD_EVS and e.get("note") != "drain":
+            cmds.append((ev, e.get("api", ""), e.get("o", 0), e.get("t", 0), e.get("dir", ""),
+                         stack[-1] if stack else "top"))
+    return tuple(cmds[-k:])
 
 
 def _show(over):
